@@ -90,13 +90,47 @@ def tlc(module, cfg, env=None, workers=1, deque=False, xmx="6g", timeout=3600, e
         info["error_text"] = out[idx: idx + 3000] if idx >= 0 else out[-3000:]
     return out, info
 
-def tuples(out, tag):
-    """Lines TLC printed with PrintT(<<tag, ...>>), parsed into python lists."""
+def _tuple_texts(out, tag):
+    """Texts of the tuples TLC printed with PrintT(<<tag, ...>>).  TLC's pretty printer wraps long
+    tuples over several lines (`<< "REJECT",\n   "...", ... >>`), so a tuple is collected from its
+    opening `<<` to the matching `>>` (strings are respected)."""
     res = []
-    for line in out.splitlines():
-        if line.startswith('<<"' + tag + '"'):
-            res.append(parse_tla_tuple(line))
+    lines = out.splitlines()
+    n = len(lines)
+    k = 0
+    head = re.compile(r'^<<\s*"' + re.escape(tag) + r'"')
+    while k < n:
+        if head.match(lines[k]):
+            buf = lines[k]
+            while not _balanced(buf) and k + 1 < n:
+                k += 1
+                buf += " " + lines[k].strip()
+            res.append(buf)
+        k += 1
     return res
+
+def _balanced(s):
+    depth = 0; i = 0; instr = False
+    while i < len(s):
+        c = s[i]
+        if instr:
+            if c == "\\":
+                i += 2; continue
+            if c == '"':
+                instr = False
+        else:
+            if c == '"':
+                instr = True
+            elif s.startswith("<<", i):
+                depth += 1; i += 2; continue
+            elif s.startswith(">>", i):
+                depth -= 1; i += 2; continue
+        i += 1
+    return depth == 0 and not instr
+
+def tuples(out, tag):
+    """Tuples TLC printed with PrintT(<<tag, ...>>), parsed into python lists."""
+    return [parse_tla_tuple(t) for t in _tuple_texts(out, tag)]
 
 def parse_tla_tuple(s):
     """Parse a flat TLA+ tuple of strings / ints as printed by TLC, e.g. <<"REJECT", "p1", "rows", 6>>"""
@@ -132,12 +166,7 @@ def parse_tla_tuple(s):
 
 def replay_lines(out):
     """JSON payloads of PrintT(<<"REPLAY", ToJson(..)>>) lines."""
-    res = []
-    for line in out.splitlines():
-        if line.startswith('<<"REPLAY", "'):
-            t = parse_tla_tuple(line)
-            res.append(json.loads(t[1]))
-    return res
+    return [json.loads(parse_tla_tuple(t)[1]) for t in _tuple_texts(out, "REPLAY")]
 
 # ------------------------------------------------------------------------------------------
 def load_findings():
